@@ -29,3 +29,4 @@ def check(ctx):
     device.batched_kernel(ctx)
     ctx.floor("LINDBLAD-form", 4)
     ctx.floor("HERM", 2)
+    observables.lindbladian_structure(ctx)
